@@ -71,6 +71,16 @@ CHECKS = {
    text="Every conflict kind the statement lists, applied to every mergeable set with <=2 atoms, must be rejected with an error under every order of the service list (never a panic, never a silent success); accept/reject, merged facts and Node-field routes must not depend on the order, also for acceptable differences and for the mergeable sets themselves.",
    note="The conflict catalogue mirrors the statement's list; single conflicts only.",
    ref="DESIGN.md §6 C05"),
+ "C15": dict(engine="enum", cat="exploration",
+   technique="bounded-exhaustive enumeration of single-service schemas (every service SDL of every world with <=3 atoms of a 45-atom type-system catalogue, plus 12 corner schemas) through the real remote introspector over a spec-shaped responder, compared fact-by-fact with the source",
+   text="For each distinct service SDL in the bound: the schema reconstructed by the real ParallelRemoteSchemaIntrospector from a spec-compliant answer must have exactly the source's canonical facts (types, kinds, fields, argument names/types/defaults, wrappers, enum values, union members, implements, input fields and defaults, directive definitions with arguments and locations, deprecations, descriptions, root types); an error is allowed only when a standard client cannot rebuild the schema either.",
+   note="Trusted: gqlref.IntrospectResolver as the spec-compliant responder, schemacanon; applied directives other than @deprecated and `repeatable` are excluded.",
+   ref="DESIGN.md §6 C15"),
+ "C16": dict(engine="enum", cat="exploration",
+   technique="bounded-exhaustive enumeration of introspection operations (standard query, every selection tree <=K fields under __schema and __type(name:) for every type name, by literal and variable, decorated) over merged schemas, compared with a specification-shaped reference resolver; plus rebuild by a standard client and by a second gateway",
+   text="For every merged schema with <=1 atom and every introspection operation in the bound the HTTP answer equals gqlref.Introspect over the merger's own output (lists as sets, null/empty description identified), __type(name:X) equals the __schema.types entry X, and FromIntrospection and the gateway's own remote introspector rebuild a schemacanon-equal schema from the standard query.",
+   note="Trusted: gqlref.IntrospectResolver (2018-shaped prelude of gqlparser 2.5.1), schemacanon.",
+   ref="DESIGN.md §6 C16"),
 }
 
 NOT_YET = {}
